@@ -587,6 +587,12 @@ func newCaseRun(c Case) *caseRun {
 }
 
 func (cr *caseRun) header(mode string) Event {
+	if cr.c.Senders == nil {
+		cr.c.Senders = []int{}
+	}
+	if cr.c.Recvs == nil {
+		cr.c.Recvs = []int{}
+	}
 	return Event{"e": "case", "case": cr.c.ID, "fl": cr.c.Fl, "mode": mode, "custom": cr.c.Custom, "cap": cr.c.Cap,
 		"senders": cr.c.Senders, "recvs": cr.c.Recvs}
 }
@@ -931,7 +937,7 @@ func runDqueue(c Case) []Event {
 	for i := 1; i <= c.Consumers; i++ {
 		ids = append(ids, i)
 	}
-	cr.c.Senders, cr.c.Recvs = ids, nil
+	cr.c.Senders, cr.c.Recvs = ids, []int{}
 	for _, i := range ids {
 		cr.addrs[i] = freeAddr()
 	}
